@@ -211,7 +211,25 @@ def access_orders(ctx, name, l):
     pos, ed, cr = zoo.raw(l)
     raw = (np.asarray(pos, dtype=np.float32).astype(float), ed, cr)
     ref_l = Lattice(*raw)
-    ref = {a: read_attr(ref_l, a) for a in ["plaquettes", "edges.adjacent_plaquettes", "vertices.adjacent_plaquettes", "n_plaquettes"]}
+    ref = {}
+    for a in ["plaquettes", "edges.adjacent_plaquettes", "vertices.adjacent_plaquettes", "n_plaquettes"]:
+        try:
+            ref[a] = read_attr(ref_l, a)
+        except Exception as ex:
+            ctx.impl_violation(f"{name}: on a fresh lattice, reading {a} (after {list(ref)}) gives an unusable value: {type(ex).__name__}: {ex}",
+                               dict(case=name, order=list(ref) + [a], mode="fresh", lattice=zoo.lat_to_json(l)))
+            return 0
+    # the reference must not depend on the order it was read in either: a second reference lattice read in the opposite order
+    ref_l2 = Lattice(*raw)
+    for a in ["n_plaquettes", "vertices.adjacent_plaquettes", "edges.adjacent_plaquettes", "plaquettes"]:
+        try:
+            if read_attr(ref_l2, a) != ref[a]:
+                ctx.impl_violation(f"{name}: the value of {a} depends on the order of first access", dict(case=name, order="reversed reference", mode="fresh", lattice=zoo.lat_to_json(l)))
+                return 0
+        except Exception as ex:
+            ctx.impl_violation(f"{name}: on a fresh lattice, reading {a} in the reversed order gives an unusable value: {type(ex).__name__}: {ex}",
+                               dict(case=name, order="reversed reference", mode="fresh", lattice=zoo.lat_to_json(l)))
+            return 0
     n = 0
     for order in itertools.permutations(ATTRS):
         for mode in ("fresh", "unpickled", "pickled-midway"):
@@ -308,6 +326,30 @@ def run(ctx):
         if any(None in r for r in t["edge_plaq"]): ctx.count("lattices_with_INVALID_sides")
         ctx.case((l.n_vertices, l.n_edges, str(t["plaq"])[:200], fam), nontrivial=len(t["plaq"]) >= 1 and l.n_edges >= 3,
                  sample=dict(case=name, V=l.n_vertices, E=l.n_edges, F=len(t["plaq"]), coordination=t["coordination"][:10]))
+    # the constructor arguments in other representations (crossing as float64 - what make_dual hands over -, int32 / int8 indices and crossings, column-major,
+    # read-only): same edges, crossings, vectors, tables and plaquettes, and the arrays handed over are left untouched
+    for name, fam, l in keep[:: max(1, len(keep) // (12 if ctx.tier == "quick" else 80))]:
+        P, E, C = zoo.raw(l)
+        try:
+            base = Lattice(P.copy(), E.copy(), C.copy())
+            tb = tables_of(base)
+        except Exception:
+            continue
+        for lab, (Pv, Ev, Cv) in (("crossing float64", (P.copy(), E.copy(), C.astype(np.float64))), ("indices int32, crossing int8", (P.copy(), E.astype(np.int32), C.astype(np.int8))),
+                                   ("column-major", (np.asfortranarray(P), np.asfortranarray(E), np.asfortranarray(C))), ("crossing float64, column-major", (P.copy(), E.copy(), np.asfortranarray(C.astype(np.float64))))):
+            keepP, keepE, keepC = np.array(Pv).copy(), np.array(Ev).copy(), np.array(Cv).copy()
+            rep = lambda what: ctx.impl_violation(f"{name}: built from ({lab}) arrays, {what}", dict(case=name, representation=lab, lattice=zoo.lat_to_json(l)))
+            try:
+                lv = Lattice(Pv, Ev, Cv)
+                if not (np.array_equal(lv.edges.crossing, C) and np.array_equal(lv.edges.indices, E) and np.allclose(lv.edges.vectors, base.edges.vectors, atol=1e-12, rtol=0)):
+                    rep("the lattice has different edges / crossings / edge vectors than the same lattice built from int64 arrays"); continue
+                if tables_of(lv) != tb:
+                    rep("the adjacency tables / plaquettes differ from those of the same lattice built from int64 arrays"); continue
+                if not (np.array_equal(Pv, keepP) and np.array_equal(Ev, keepE) and np.array_equal(Cv, keepC)):
+                    rep("the constructor modified an array it was handed"); continue
+            except Exception as ex:
+                rep(f"raised {type(ex).__name__}: {ex}"); continue
+            ctx.case((name, "constructor", lab), nontrivial=True)
     # churn: fresh lattices that are dropped after use (re-used object addresses), judged by the table oracle
     for name, l in zoo.churn(rng, 40 if ctx.tier == "quick" else 400):
         if min_gap(l) < GAP_MIN:
